@@ -180,6 +180,33 @@ func checkPow10(tb *TB, f *ssa.Function) string {
 	return ""
 }
 
+// ruleJSExportsDirect (shared): the JavaScript package hands the named operations out as the registered
+// WebAssembly globals themselves (`name: globalThis.name`). A wrapper in between (coercions such as `x >>> 0`,
+// a "fast path" that compares in JavaScript) changes the operation's result for part of its domain although
+// no Go code changed.
+func ruleJSExportsDirect(c *Check, rule string, names ...string) {
+	if _, err := os.Stat(filepath.Join(RepoDir, "otp-js", "src", "index.js")); err != nil {
+		return // no JavaScript package in this tree
+	}
+	exp, lines, err := jsExportTable()
+	if err != nil {
+		c.Unk(rule, "otp-js/src/index.js", "export-table", "cannot read the JavaScript export table: "+err.Error(), "otp-js/src/index.js")
+		return
+	}
+	for _, n := range names {
+		pos := fmt.Sprintf("otp-js/src/index.js:%d", lines[n])
+		got, ok := exp[n]
+		switch {
+		case !ok:
+			c.Bad(rule, "otp-js/src/index.js", "export:"+n, "the package does not export "+n, "otp-js/src/index.js")
+		case got != "globalThis."+n:
+			c.Bad(rule, "otp-js/src/index.js", "export:"+n, "the exported "+n+" is "+clip(got, 120)+", not the registered global itself: arguments or the verdict are altered in JavaScript", pos)
+		default:
+			c.OK(rule, "otp-js/src/index.js", "export:"+n, "exported name is the registered global itself", pos)
+		}
+	}
+}
+
 func runC20(c *Check, w *World) {
 	if w.Cfg.Name != CfgWasm.Name {
 		return
